@@ -8,6 +8,8 @@ def sh(cmd):
     return p.returncode, p.stdout
 
 only = set(sys.argv[1:])
+# changes whose breakage needs a history on one long-lived object: the history check (C10) is what catches them
+EXTRA = {"C04-m2": ["C10"], "C11-m3": ["C10"]}
 rc, out = sh("git -C /repo diff --quiet")
 assert rc == 0, "/repo has uncommitted changes"
 res = {}
@@ -20,12 +22,25 @@ for d in sorted(os.listdir("/verif/seeded")):
     if rc != 0:
         print(d, "DOES-NOT-APPLY", out.strip()[:100]); res[d] = "does-not-apply"; continue
     sh("git -C /repo apply %s" % patch)
+    caught_by = []
+    first = ""
     try:
-        rc, out = sh("/verif/bin/check %s --tier quick 2>/dev/null | grep -E 'VIOLATION|KNOWN-FINDING'" % prop)
+        for chk in [prop] + EXTRA.get(d, []):
+            rc, out = sh("/verif/bin/check %s --tier quick 2>/dev/null | grep -E 'VIOLATION|KNOWN-FINDING'" % chk)
+            viol = [l for l in out.splitlines() if l.startswith("VIOLATION")]
+            if viol:
+                caught_by.append(chk + ("(no-failing-input-found)" if viol[0].endswith("no-failing-input-found") else ""))
+                first = first or viol[0][:90]
     finally:
         sh("git -C /repo checkout -- .")
-    viol = [l for l in out.splitlines() if l.startswith("VIOLATION")]
-    res[d] = "caught" if viol else "MISSED"
-    print(d, res[d], viol[0][:90] if viol else "", flush=True)
+    res[d] = "caught" if caught_by else "MISSED"
+    mp = "/verif/seeded/%s/meta.json" % d
+    try:
+        meta = json.load(open(mp))
+        meta["resweep"] = {"repo_head": sh("git -C /repo rev-parse --short HEAD")[1].strip(), "caught_by": caught_by}
+        json.dump(meta, open(mp, "w"), indent=1)
+    except Exception:
+        pass
+    print(d, res[d], caught_by, first, flush=True)
 json.dump(res, open("/verif/build/sweep_seeded.json", "w"), indent=1)
 print("missed:", [k for k, v in res.items() if v != "caught"])
